@@ -206,6 +206,7 @@ class WindowedBinaryAUROC(Metric[torch.Tensor]):
         Args:
             metrics (Iterable[Metric]): metric instances whose states are to be merged.
         """
+        metrics = list(metrics)  # the iterable is traversed more than once
 
         merge_max_num_samples = self.max_num_samples
         for metric in metrics:
